@@ -90,7 +90,14 @@ pub fn programs(thorough: bool) -> Vec<(String, usize)> {
         // reporter: four threads, so even the non-preemptive schedules are many
         ("L5~L15~R".to_string(), if thorough { 1 } else { 0 }),
     ];
+    // In-snapshot points ("S:"): the reporter may be descheduled between its loads of count,
+    // sum and each bucket of one bag while observers / pushers complete whole observations.
+    v.push(("S:L5~R".to_string(), deep));
+    v.push(("S:H5,P~R".to_string(), if thorough { 3 } else { 1 }));
     if thorough {
+        v.push(("S:L5,L25~R,R".to_string(), 2));
+        v.push(("S:L5,H15,P~R,R".to_string(), 2));
+        v.push(("S:L5~L15~R".to_string(), 1));
         v.push(("H5,P~R".to_string(), deep));
         v.push(("L5~L15~R,R".to_string(), 1));
         v.push(("L5,L15,L25~R,R".to_string(), 2));
@@ -251,6 +258,14 @@ fn evaluate(nthreads: usize) -> (String, Vec<(String, String)>) {
                     if let Some(f) = lo.le(s) {
                         fails.push((format!("sched:below-lower-bound:{kind}:{f}"), format!("report #{id} shows {kind} {{{}}} but {{{}}} was complete (published) before the report started", render(s), render(lo))));
                     }
+                    // No bucket (the derived +inf bucket included) may show more than the number
+                    // of observations that had been started at all: the transient over-count of
+                    // the known finding is bounded by the in-flight observations, so it never
+                    // reaches this class.
+                    if let Some(i) = s.buckets.iter().position(|&x| x > up.count) {
+                        let f = if i + 1 == s.buckets.len() { "plus-infinity-bucket".to_string() } else { format!("bucket[{i}]") };
+                        fails.push((format!("sched:bucket-exceeds-started-count:{kind}:{f}"), format!("report #{id} shows {kind} {{{}}}: a bucket above the {} observations started (push started) before the report ended", render(s), up.count)));
+                    }
                     if let Some(f) = s.le(up) {
                         fails.push((format!("sched:above-upper-bound:{kind}:{f}"), format!("report #{id} shows {kind} {{{}}} but only {{{}}} had been started (push started) before the report ended", render(s), render(up))));
                     }
@@ -326,8 +341,29 @@ fn execution(prog: &[Vec<POp>]) -> String {
     }
 }
 
+/// Are the points inside `ObservationBagSync::snapshot` (between the loads of count, sum and each
+/// bucket, under the registry read lock) scheduling points in this job? Programs prefixed "S:".
+static SNAPSHOT_POINTS: std::sync::atomic::AtomicBool = std::sync::atomic::AtomicBool::new(false);
+
+fn hook_point(label: &'static str) {
+    if label.starts_with("bag.snapshot:") && !SNAPSHOT_POINTS.load(SeqCst) {
+        return;
+    }
+    vsched::point(label);
+}
+
 fn hooks() {
-    nm_impl::verif_hook::install(nm_impl::verif_hook::Hooks { point: vsched::point });
+    // block_until: the registry locks are modelled waits, so a reporter descheduled inside a
+    // snapshot (holding the registry read lock) blocks writers in the scheduler, not for real.
+    nm_impl::verif_hook::install(nm_impl::verif_hook::Hooks { point: hook_point, block_until: Some(vsched::block_until) });
+}
+
+/// "S:<program>" = the same program with the in-snapshot points enabled.
+fn split_program(s: &str) -> (bool, &str) {
+    match s.strip_prefix("S:") {
+        Some(rest) => (true, rest),
+        None => (false, s),
+    }
 }
 
 fn setup() {
@@ -365,7 +401,9 @@ fn classify(r: &vsched::ExecResult) -> Vec<(String, String)> {
 /// job = "B|<program>|<shard>|<nshards>|<bound>"
 pub fn child(parts: &[&str]) -> Value {
     setup();
-    let prog = parse_program(parts[1]);
+    let (snap, text) = split_program(parts[1]);
+    SNAPSHOT_POINTS.store(snap, SeqCst);
+    let prog = parse_program(text);
     let shard: usize = parts[2].parse().unwrap();
     let nshards: usize = parts[3].parse().unwrap();
     let bound: usize = parts[4].parse().unwrap();
@@ -409,7 +447,9 @@ pub fn child(parts: &[&str]) -> Value {
 /// Replay one schedule with a trace.
 pub fn replay(r: &Value) {
     setup();
-    let prog = parse_program(r["program"].as_str().expect("program"));
+    let (snap, text) = split_program(r["program"].as_str().expect("program"));
+    SNAPSHOT_POINTS.store(snap, SeqCst);
+    let prog = parse_program(text);
     let sched: Vec<u8> = r["schedule"].as_array().expect("schedule").iter().map(|x| x.as_u64().unwrap() as u8).collect();
     let cfg = vsched::Config { record_trace: true, ..vsched::Config::default() };
     let res = vsched::run_one(&cfg, &sched, &move || execution(&prog));
